@@ -2,4 +2,15 @@
 import TflModel.Model.Core
 import TflModel.Model.Wire
 import TflModel.Props.C01
+import TflModel.Props.C02
+import TflModel.Props.C04
+import TflModel.Props.C05
 import TflModel.Props.C06
+import TflModel.Props.C07
+import TflModel.Props.C08
+import TflModel.Props.C12
+import TflModel.Props.C13
+import TflModel.Props.C17
+import TflModel.Props.C18
+import TflModel.Props.C19
+import TflModel.Props.C20
